@@ -14,8 +14,9 @@
                shape: discard?  place  dropIfBeforeTimestamp?  insert
      FlushOne  Shard.flushBuckets (clock forward / pause / back, gap, jump-ahead formula,
                AgentWindow, capacity-1 channel, "do not send empty buckets after a pause")
-     Event     Agent.ApplyMetric (ingestion status, main row on shard and shard2 with the key
-               mutated by the first shard, clamped-future status) and the Agent.Add* API
+     Event     Agent.ApplyMetric (ingestion status, main row on shard and on shard2 with its own
+               copy of the key, clamped-future status) and the Agent.Add*/Merge* API (one key for
+               both shards, so shard2 sees the timestamp as shard 1 clamped and rounded it)
      FlushAll  Agent.goFlushIteration (all shards in order, __timing_errors row on a gap)
      Consume   the preprocessor taking a bucket from BucketsToPreprocess
      Stop / FlushAllData   Agent.ShutdownFlusher / Agent.FlushAllData
@@ -39,7 +40,10 @@ CONSTANTS QLen,          \* superQueueLen (128)
           NShards,       \* shards are 1..NShards
           Metrics,       \* set of [id, res, sh, sh2, from2]; sh2 = 0: no secondary shard
           TimingShard,   \* shard receiving __timing_errors (1)
-          T0,            \* start instant: CurrentTime = T0, SendTime = T0 - 2
+          T0,            \* start instant: CurrentTime = T0
+          Lags0, Fulls0, \* start states: SendTime = T0 - lag for a lag in Lags0 ({2}: MakeAgent), channel
+                         \* holding an (empty) bucket or not; other lags stand for an agent whose
+                         \* preprocessor has been stuck for a while (export configs only)
           Ticks,         \* wall clock increments between operations (0 pause, negative back)
           TsOffs,        \* event timestamps are wall clock + offset
           Kinds,         \* subset of {"metric", "api"}
@@ -170,14 +174,15 @@ Drain(G, s, n, o) ==
 -------------------------------------------------------------------------------
 Init == /\ clock = T0 /\ half = FALSE
         /\ cur = [s \in Shards |-> T0]
-        /\ send = [s \in Shards |-> T0 - 2]
         /\ slots = [s \in Shards |-> {}]
-        /\ chan = [s \in Shards |-> <<>>]
         /\ stopped = [s \in Shards |-> FALSE]
         /\ closed = FALSE
         /\ out = [s \in Shards |-> <<>>]
         /\ acc = {} /\ drops = {} /\ nid = 0
-        /\ hist = <<>>
+        /\ \E lag \in Lags0, f \in Fulls0 :
+             /\ send = [s \in Shards |-> T0 - lag]
+             /\ chan = [s \in Shards |-> IF f THEN << [time |-> T0 - lag - 1, items |-> {}] >> ELSE <<>>]
+             /\ hist = << [a |-> "Init", lag |-> lag, full |-> f] >>
 
 SetG(G) == /\ cur' = G.cur /\ send' = G.send /\ slots' = G.slots /\ chan' = G.chan
            /\ stopped' = G.stopped
@@ -215,7 +220,9 @@ EventResult(kind, m, tsIn, h, id) ==
         r2  == IF st /\ two THEN Ins(r1.G, s2, 0 - m.id, 0, 1, 0, m.from2) ELSE Keep(r1.G, 0)
         r3  == Ins(r2.G, s1, id, tsIn, m.res, h, 0)
         r4  == IF st /\ r3.ok /\ r3.clamped THEN Ins(r3.G, s1, 0 - (100 + m.id), r3.ts, 1, 0, 0) ELSE Keep(r3.G, 0)
-        r5  == IF two THEN Ins(r4.G, s2, id, r3.ts, m.res, h, m.from2) ELSE Keep(r4.G, r3.ts)
+        \* ApplyMetric gives the second shard its own copy of the key (original timestamp); the Add*/Merge*
+        \* API passes the key the first shard has already clamped and rounded (a discarded row leaves it as is)
+        r5  == IF two THEN Ins(r4.G, s2, id, IF st THEN tsIn ELSE r3.ts, m.res, h, m.from2) ELSE Keep(r4.G, r3.ts)
         r6  == IF st /\ two /\ r5.ok /\ r5.clamped THEN Ins(r5.G, s2, 0 - (100 + m.id), r5.ts, 1, 0, m.from2) ELSE Keep(r5.G, 0)
     IN [G |-> r6.G, two |-> two, p |-> r3, q |-> r5]
 
